@@ -599,3 +599,37 @@ def _str_m1(*a):
 
 
 _PATCH_REGISTRATIONS[str] = _str_m1
+
+# ---------------------------------------------------------------- E10: `x | y` / `x ^ y` with disjoint bits
+# CrossHair realises both operands of `|` and `^`.  Code that assembles an integer with
+# `(value << 8) | byte` would enumerate every byte value.  When the solver agrees that, for some
+# k in {8, 16, 32}, one operand is a non-negative multiple of 2^k and the other lies in [0, 2^k), the
+# two have no bit in common and `|` and `^` are both `+`.  (An int2bv/bv2int encoding of the
+# general case was tried and z3 answers unknown on it; anything else keeps CrossHair's realisation.)
+_orig_or = SymbolicInt.__or__
+_orig_xor = SymbolicInt.__xor__
+
+
+def _bitop(self, other, orig):
+    with NoTracing():
+        b = None
+        if isinstance(other, SymbolicInt):
+            b = other.var
+        elif type(other) is int and other >= 0:
+            b = z3.IntVal(other)
+        if b is not None:
+            a = self.var
+            space = context_statespace()
+            for hi, lo in ((a, b), (b, a)):
+                for k in (8, 16, 32):
+                    cond = z3.And(hi >= 0, hi % (2**k) == 0, lo >= 0, lo < 2**k)
+                    if space.smt_fork(cond, probability_true=0.95):
+                        HIT.add("E10")
+                        return SymbolicInt(hi + lo)
+    return orig(self, other)
+
+
+SymbolicInt.__or__ = lambda self, other: _bitop(self, other, _orig_or)
+SymbolicInt.__ror__ = lambda self, other: _bitop(self, other, _orig_or)
+SymbolicInt.__xor__ = lambda self, other: _bitop(self, other, _orig_xor)
+SymbolicInt.__rxor__ = lambda self, other: _bitop(self, other, _orig_xor)
